@@ -611,6 +611,53 @@ def run_case(case):
     return out
 
 
+# ------------------------------------------------------------------------------------------------ exhaustive schedules
+def enum_schedules(base, limit):
+    """All FIFO-respecting schedules of a small scenario (thorough tier): depth-first over the enabled events of the
+    real system, re-executing the prefix for every node.  Client plans are consumed in order, at any time."""
+    import rtsim_cancel as R
+    warnings.simplefilter('ignore')
+    leaves, stack = [], [[]]
+    while stack and len(leaves) < limit:
+        prefix = stack.pop()
+        random.seed(base['seed'])
+        sim = R.RealSys(base['nw'], base['progs'])
+        try:
+            pos = [0] * len(base['plans'])
+            bad = False
+            for ev in prefix:
+                if ev[0] == 'cl':
+                    pos[ev[1]] += 1
+                _, exc, _ = sim.do(tuple(ev))
+                if exc is not None:
+                    bad = True
+                    break
+            nxt = [] if bad else [list(e) for e in sim.enabled()]
+            if not bad:
+                for c, plan in enumerate(base['plans']):
+                    if pos[c] < len(plan):
+                        nxt.append(['cl', c] + list(plan[pos[c]]))
+        finally:
+            sim.close()
+        if not nxt or len(prefix) >= base.get('cap', 60):
+            leaves.append(prefix)
+        else:
+            for ev in nxt:
+                stack.append(prefix + [ev])
+    return [dict(base, idx=f"{base['idx']}#{i}", events=evs, plans=[]) for i, evs in enumerate(leaves)]
+
+
+def exhaustive_bases():
+    return [
+        dict(idx='ex_d8', nw=1, progs=[[['s', 1], ['a', 0]], []], plans=[[['connect'], ['submit', 0, 0], ['cancel', 0]]],
+             seed=11, pc=0, malformed=False, weights={}, cap=40),
+        dict(idx='ex_cancel_child', nw=2, progs=[[['s', 1], ['c', 0]], []], plans=[[['connect'], ['submit', 0, 0], ['request', 0]]],
+             seed=12, pc=0, malformed=False, weights={}, cap=40),
+        dict(idx='ex_two_open', nw=1, progs=[[['s', 1], ['s', 1]], []], plans=[[['connect'], ['submit', 0, 0], ['request', 0]]],
+             seed=13, pc=0, malformed=False, weights={}, cap=40),
+    ]
+
+
 # ------------------------------------------------------------------------------------------------ D4 probe
 def d4_probe():
     """Client cancel for a finished / already cancelled / unknown id (DetachedServer.handle_cancel_comp_task)."""
@@ -763,6 +810,15 @@ def run(ctx: vf.Ctx):
     n = ctx.n(400, 20000)
     for i in range(n):
         cases.append(gen_case(rng, i, malformed=(rng.random() < 0.15)))
+    if not ctx.quick():
+        nex, complete = 0, {}
+        for b, lim in zip(exhaustive_bases(), [40000, 6000, 6000]):
+            ex = enum_schedules(b, lim)
+            nex += len(ex)
+            complete[b['idx']] = dict(schedules=len(ex), all_interleavings=len(ex) < lim)
+            cases += ex
+        ctx.cov['exhaustive_schedules'] = nex
+        ctx.cov['exhaustive_scenarios'] = complete
     outs, model_out = run_all(ctx, cases)
     nmis = compare_and_report(ctx, cases, outs, model_out)
     ctx.cov['model_events'] = sum(len(o['events']) for o in outs)
